@@ -97,6 +97,36 @@ Section ClientRefine.
       rewrite (pending_is_skipn (w_d w) f Hb Hf). rewrite F2, F3. cbn [d_cp d2 set_checkpoint c' cseq sseq d_buf d_oid].
       rewrite skipn_skipn'. f_equal. f_equal. lia.
   Qed.
+  (* ApplyPushPullPack on the answer to Subscribe / SubscribeOrCreate: the joiner of ProtocolJoin.v *)
+  Theorem apply_subscribe_refines w r ops :
+    w_state w = DueToSubscribe \/ w_state w = DueToSubscribeCreate ->
+    has (p_opt r) bit_error = false -> has (p_opt r) bit_subscribe = true ->
+    (match p_ops r with o :: _ => is_snap o | [] => false end) = true ->
+    let c0 := mkCp (u64sub (sseq (p_cp r)) (N.of_nat (length (p_ops r)))) (cseq (p_cp r)) in
+    incoming (o_cuid (d_oid (w_d w))) true c0 r = Some ops -> no_tx ops ->
+    exists w' a, apply_pack St call J k_init k_remote k_export w r = AOk _ _ _ w' a /\
+      w_state w' = SubscribedSt /\ w_duid w' = p_duid r /\ w_key w' = w_key w /\
+      d_snap (w_d w') = fold_left k_remote ops k_init /\
+      d_buf (w_d w') = [] /\
+      absc w' ops = mkPc (o_cuid (d_oid (w_d w))) (N.max (sseq c0) (sseq (p_cp r))) (N.max (cseq c0) (cseq (p_cp r))) [] ops.
+  Proof.
+    intros Hst He Hsb Hsnap c0 Hinc Hnt. unfold apply_pack. rewrite He, Hsb, Hsnap. cbn [andb negb orb].
+    assert (Hns : dstate_eqb (w_state w) SubscribedSt = false) by (destruct Hst as [-> | ->]; reflexivity). rewrite Hns. cbn [orb negb].
+    cbn [d_cp d_oid o_cuid]. fold c0. rewrite Hinc.
+    match goal with |- context [receive_ops _ _ _ _ ?d ops] => set (d2 := d) end.
+    assert (F : d_snap d2 = k_init /\ d_buf d2 = [] /\
+                d_cp d2 = mkCp (N.max (sseq c0) (sseq (p_cp r))) (N.max (cseq c0) (cseq (p_cp r))) /\
+                o_cuid (d_oid d2) = o_cuid (d_oid (w_d w))).
+    { unfold d2. destruct (dstate_eqb (w_state w) DueToSubscribeCreate && true); cbn; auto. }
+    destruct F as [F1 [F2 [F3 F4]]].
+    unfold receive_ops. rewrite (receive_plain ops Hnt _ d2 (Nat.lt_succ_diag_r _)).
+    destruct (fold_remote_fields ops d2) as [G1 [G2 [G3 G4]]]. cbv zeta in G1, G2, G3, G4.
+    eexists _, _. split; [reflexivity|]. cbn [w_state w_duid w_key w_d].
+    split; [reflexivity|]. split; [reflexivity|]. split; [reflexivity|]. split; [rewrite G1, F1; reflexivity|].
+    split; [rewrite G2; exact F2|].
+    unfold absc. cbn [w_d]. rewrite G4, F4, G3, F3. unfold pending. rewrite G2, F2. reflexivity.
+  Qed.
+
   (* ---------- a local call is the abstract system's local step ---------- *)
   Variable k_validate : St -> call -> bool.
   Variable k_local : St -> call -> opid -> lres St ret.
